@@ -91,6 +91,9 @@ def mixed_adjacent(text) -> bool:
 
 def check_nested(case):
     parse = _parse()
+    failed = sut.preheat_parse_caches()
+    if failed is not None:
+        fail("accepted", f"the parser raised {failed!r} for a well-formed string while the caches were being filled")
     ast = case["ast"]
     flattened = None
     shapes = []
@@ -139,6 +142,7 @@ def classify_nested(case, info):  # pylint:disable=unused-argument
 
 def check_chain(case):
     parse = _parse()
+    sut.preheat_parse_caches()
     expected = ref.split_by_precedence(case["atoms"], case["gaps"])
     res = sut.call(parse, case["s"])
     if not res.ok:
